@@ -69,9 +69,12 @@ def cases(ctx):
                 vals.append(vals[0] + str(rng.choice([" ", "\t", "  "])) if rng.random() < 0.6 else str(rng.choice([" " + vals[0], vals[0].swapcase(), vals[0] + "."])))
                 vals = list(dict.fromkeys(vals))
             cols[f"g{c}"] = [str(x) for x in rng.choice(vals, nrows)]
-        kind = str(rng.choice(["uniform", "lattice", "gauss"]))
+        kind = str(rng.choice(["uniform", "lattice", "gauss", "intscale", "intscale"]))
         if kind == "uniform":
             score = rng.uniform(0, 1, nrows)
+        elif kind == "intscale":  # an integer score column (0..100 scale, or uint8 / bool decisions) queried at float thresholds
+            dt_ = [np.int64, np.int32, np.uint8, np.bool_][int(rng.integers(0, 4))]
+            score = (rng.integers(0, 101, nrows) if dt_ is not np.bool_ else rng.integers(0, 2, nrows)).astype(dt_)
         elif kind == "lattice":
             score = rng.integers(0, 6, nrows) / 5.0
         else:
